@@ -646,6 +646,77 @@ EXTERN int _decomp_s(wchar_t *restrict dest, rsize_t dmax, const uint32_t cp,
 
 #endif /* SAFECLIB_DISABLE_WCHAR */
 
+/* Finds the first %n conversion of a printf (is_scanf == 0) or scanf format, however it is spelled:
+   after any number of %% pairs and with any flags, '*', field width, precision, positional argument or
+   length modifier ("%%%n", "%ln", "%hhn", "%5n", "%1$n", "%*n").  A plain search for the substring "%n" sees
+   none of these.  Returns a pointer to the '%' of that directive, or NULL. */
+static inline char *safec_fmt_find_n(const char *fmt, int is_scanf) {
+    const char *p = fmt;
+    while (*p) {
+        const char *start;
+        if (*p++ != '%')
+            continue;
+        if (*p == '%') {
+            p++;
+            continue;
+        }
+        start = p - 1;
+        while (*p == '-' || *p == '+' || *p == ' ' || *p == '#' || *p == '0' || *p == '*' || *p == '\'' ||
+               *p == '.' || *p == '$' || *p == 'I' || (*p >= '1' && *p <= '9') || (is_scanf && *p == 'm'))
+            p++;
+        while (*p == 'h' || *p == 'l' || *p == 'L' || *p == 'q' || *p == 'j' || *p == 'z' || *p == 't')
+            p++;
+        if (*p == 'n')
+            return (char *)start;
+        if (is_scanf && *p == '[') { /* scanset: may contain 'n' and '%' */
+            p++;
+            if (*p == '^')
+                p++;
+            if (*p == ']')
+                p++;
+            while (*p && *p != ']')
+                p++;
+        }
+        if (*p)
+            p++;
+    }
+    return NULL;
+}
+#ifndef SAFECLIB_DISABLE_WCHAR
+static inline wchar_t *safec_wfmt_find_n(const wchar_t *fmt, int is_scanf) {
+    const wchar_t *p = fmt;
+    while (*p) {
+        const wchar_t *start;
+        if (*p++ != L'%')
+            continue;
+        if (*p == L'%') {
+            p++;
+            continue;
+        }
+        start = p - 1;
+        while (*p == L'-' || *p == L'+' || *p == L' ' || *p == L'#' || *p == L'0' || *p == L'*' || *p == L'\'' ||
+               *p == L'.' || *p == L'$' || *p == L'I' || (*p >= L'1' && *p <= L'9') || (is_scanf && *p == L'm'))
+            p++;
+        while (*p == L'h' || *p == L'l' || *p == L'L' || *p == L'q' || *p == L'j' || *p == L'z' || *p == L't')
+            p++;
+        if (*p == L'n')
+            return (wchar_t *)start;
+        if (is_scanf && *p == L'[') {
+            p++;
+            if (*p == L'^')
+                p++;
+            if (*p == L']')
+                p++;
+            while (*p && *p != L']')
+                p++;
+        }
+        if (*p)
+            p++;
+    }
+    return NULL;
+}
+#endif
+
 // internal helpers for the *printf_s functions:
 
 // output function type
